@@ -44,10 +44,10 @@ slices that are seen only before a cut, only after it, or on both sides.  The
 uninterrupted sliced aggregate is compared with a brute-force group-by
 (`model_sliced_agg`), restored runs with the uninterrupted one (exact key set).
 
-Only `num_threads == 0` is built here.  `NUM_THREADS` / `_Executor` are the
-seam for the threaded configurations: they must be driven by the deterministic
-scheduler (E1), never by OS threads; results are then compared as multisets
-(`ordered=False`).
+The enumerated histories above run with `num_threads == 0`.  The threaded
+configurations (num_threads 1-2) run the same checkpoint / restore step under
+the deterministic scheduler (E1): `vmc/ckharness.py::CheckpointThreaded`, driven
+from `run()` (group 'threads'); results are compared as multisets.
 """
 import collections
 import copy
@@ -63,7 +63,7 @@ PROPERTY = 'C10'
 LEVEL = 'fault_enumeration'
 
 HARNESSES = ('source', 'pipeline', 'threads')
-NUM_THREADS = (0,)     # threaded variants: to be added under vmc.sched (E1)
+NUM_THREADS = (0,)     # the E3 histories; threads: vmc/ckharness.py under E1
 
 TRANSPORTS = ('object', 'pickle', 'pickler')
 SOURCE_VIAS = ('iterator', 'fresh-iterator', 'data-source')
